@@ -64,7 +64,18 @@ RECURSIVE FirstN(_, _)
 FirstN(t, S) == IF S = {} THEN NoErr ELSE LET a == CHOOSE z \in S : TRUE IN IF NodeErr(t, a) # NoErr THEN NodeErr(t, a) ELSE FirstN(t, S \ {a})
 RECURSIVE FirstC(_, _)
 FirstC(t, S) == IF S = {} THEN NoErr ELSE LET a == CHOOSE z \in S : TRUE IN IF ConnErr(t, a) # NoErr THEN ConnErr(t, a) ELSE FirstC(t, S \ {a})
-TraceErr(t) == IF FirstN(t, DOMAIN t.steps) # NoErr THEN FirstN(t, DOMAIN t.steps) ELSE FirstC(t, DOMAIN t.msgs)
+(* C02 for off-grid episodes: another run of the same system from the same initial graph state under another thread schedule (t.ref) *)
+(* agrees with this one on the common prefix of what both recorded (identical floats project to identical integers)                *)
+Prefix(a, b) == LET n == IF Len(a) <= Len(b) THEN Len(a) ELSE Len(b) IN SubSeq(a, 1, n) = SubSeq(b, 1, n)
+RefErr(t) ==
+  IF ~("ref" \in DOMAIN t) THEN NoErr ELSE
+  LET bn == {n \in DOMAIN t.steps : ~Prefix(t.steps[n], t.ref.steps[n])}
+      bx == {x \in DOMAIN t.msgs : ~Prefix(t.msgs[x], t.ref.msgs[x])}
+  IN IF bn # {} THEN LET n == CHOOSE n \in bn : TRUE IN Err("DeterministicAcrossSchedules", <<n>>, t.ref.steps[n], t.steps[n])
+     ELSE IF bx # {} THEN LET x == CHOOSE x \in bx : TRUE IN Err("DeterministicAcrossSchedules", <<x>>, t.ref.msgs[x], t.msgs[x])
+     ELSE NoErr
+TraceErr(t) == IF FirstN(t, DOMAIN t.steps) # NoErr THEN FirstN(t, DOMAIN t.steps)
+               ELSE IF FirstC(t, DOMAIN t.msgs) # NoErr THEN FirstC(t, DOMAIN t.msgs) ELSE RefErr(t)
 
 Verdict(e) ==
   PrintT("VERDICT|" \o ToString(tid) \o "|" \o T.id \o "|" \o (IF e = NoErr THEN "accept" ELSE "reject") \o "|"
